@@ -106,7 +106,8 @@ def check_one(ctx, res, seed, st, samples, distinct):
     # (1c) C04_generated_declaration_is_checked: the clean sub-environment of this corpus and the declarations it covers
     bits = gen_theorem_instances(res)
     st["clean_env_definitions"] = st.get("clean_env_definitions", 0) + len(bits)
-    st["clean_env_declarations_checked"] = st.get("clean_env_declarations_checked", 0) + bits.count("1")
+    st["clean_env_declarations_checked"] = st.get("clean_env_declarations_checked", 0) + bits.count("1") + bits.count("4")
+    st["clean_env_exports_checked"] = st.get("clean_env_exports_checked", 0) + bits.count("4")
     st["clean_env_refers_outside"] = st.get("clean_env_refers_outside", 0) + bits.count("0")
     if "3" in bits and not mism:
         ctx.fail("the declaration of a definition inside the clean sub-environment differs from its declaration in the corpus environment", dict(
@@ -159,18 +160,30 @@ def gen_theorem_instances(res):
     """C04_generated_declaration_is_checked on the corpus: R2 = the definitions passing def_cleanb (the theorem's hypothesis
     clean_envb holds of R2 by construction and is evaluated all the same); per definition of R2: '0' decl() does not answer inside
     R2 (it refers to a definition outside), '1' answers, passes decl_ok and is the declaration of the full environment,
-    '2' answers and FAILS decl_ok (would contradict the theorem), '3' differs from the full environment's declaration."""
-    body = ("From TsRs Require Import Corr.%s Spec.TsSyn Spec.GenClean.\n" % res["envname"] + CR.HEADER +
+    '2' answers and FAILS decl_ok / export_okb (would contradict the theorems), '3' differs from the full environment's text,
+    '4' as '1' and export_to_string() answers inside R2, passes export_okb (C04_generated_export_parses) and is the export text of
+    the full environment."""
+    body = ("From TsRs Require Import Corr.%s Spec.TsSyn Spec.GenClean Proofs.Grammar_export_proofs.\n" % res["envname"] + CR.HEADER +
             "Definition bit (b : bool) : N := if b then 49 else 48.\n"
             "Definition R2 := filter (fun p => def_cleanb is_upper is_alnum is_numeric (snd p)) R.\n"
             "Definition inst (p : str * typedef) : N :=\n"
             "  match decl_of is_upper is_alnum is_numeric R2 fuel (snd p) with\n"
             "  | Ok dc => if decl_ok is_alnum is_numeric dc && docs_okb (d_docs dc)\n"
-            "             then match decl_text is_upper is_alnum is_numeric R fuel (snd p) with Ok s => if str_eqb s (print_decl dc) then 49 else 51 | _ => 51 end\n"
+            "             then match decl_text is_upper is_alnum is_numeric R fuel (snd p) with\n"
+            "                  | Ok s => if str_eqb s (print_decl dc) then\n"
+            "                      let t := RNamed (fst p) (map (fun _ => RLeaf LBool) (c_params (attrs_of (snd p)))) in\n"
+            "                      match export_string is_upper is_alnum is_numeric R2 false cwd fuel t (lit \"./bindings\") with\n"
+            "                      | Ok x => if export_okb is_upper is_alnum is_numeric R2 false cwd fuel t (lit \"./bindings\")\n"
+            "                                then match export_string is_upper is_alnum is_numeric R false cwd fuel t (lit \"./bindings\") with\n"
+            "                                     | Ok y => if str_eqb x y then 52 else 51 | _ => 51 end\n"
+            "                                else 50\n"
+            "                      | _ => 49\n"
+            "                      end else 51\n"
+            "                  | _ => 51 end\n"
             "             else 50\n"
             "  | _ => 48\n"
             "  end.\n"
-            "Eval vm_compute in (bit (clean_envb is_upper is_alnum is_numeric R2) :: map inst R2).\n")
+            "Eval vm_compute in (bit (clean_envb is_upper is_alnum is_numeric R2 && forallb cleanb cwd && cleanb (lit \"./bindings\")) :: map inst R2).\n")
     ok, out = vlib.coq_eval("%s_syn2" % res["envname"], body, timeout=1800)
     if not ok:
         raise vlib.HarnessError("generated-declaration theorem instance file failed: " + out[-3000:])
